@@ -219,6 +219,7 @@ def run(ctx, out, tier):
             out.viol("C20.interp", "C20.interp|shared", ctx.where(sites[0][0], sites[0][2]["span"]) if sites else "-",
                      "a Lua interpreter is shared between concurrently running scripts: which script's globals a block sees depends on thread scheduling")
             out.inst("C20.interp", 0, 1)
+    shared.sh_traverse(ctx, out)
     return meta()
 
 
